@@ -58,9 +58,10 @@ class ChangeForStep(RewritePattern):
         if step == 1:
             return
 
-        # otherwise, replace op with a new one that uses step 1 and ub = ub // step
+        # otherwise, replace op with a new one that uses step 1 and ub = ceil(ub / step)
+        # (the last iteration is a partial step when ub is not a multiple of step)
         new_step = ConstantOp.from_int_and_width(1, IndexType())
-        new_ub = ConstantOp.from_int_and_width(ub // step, IndexType())
+        new_ub = ConstantOp.from_int_and_width(-(-ub // step), IndexType())
         new_for = ForOp(
             op.lb,
             new_ub,
